@@ -2,9 +2,10 @@
 # unchanged-tree sweep: every quick check over several seeds; prints only alarms and a summary
 # usage: ./sweep.sh <first-seed> <last-seed> [props...]
 cd "$(dirname "$0")"
+[ -n "$VP_RUN_REPO" ] && export VERIF_REPO=$VP_RUN_REPO
 A=$1; B=$2; shift 2
 PROPS=${@:-C01 C02 C03 C04 C05 C06 C07 C08 C09 C10 C11 C12 C13 C14 C15 C16 C17 C18 C19 C20}
-[ -x lean/.lake/build/bin/pfdriver ] || ./setup.sh > /dev/null 2>&1
+[ -x lean/.lake/build/bin/pfdriver ] || (cd lean && lake build Pokerface pfdriver > /dev/null 2>&1)
 n=0; bad=0
 for s in $(seq $A $B); do
   for p in $PROPS; do
